@@ -91,6 +91,7 @@ func (o *Object) String() string { return fmt.Sprintf("%s#%d", o.Name, o.ID) }
 type State struct {
 	mem     map[*Object]Value
 	pc      *Term
+	uload   map[string]Value // loads from slices whose contents are not modelled, by cell: a cell read twice without a store in between holds the same (arbitrary) value
 	headObj int   // number of objects allocated when the head of the innermost annotated loop was last crossed (iterfresh)
 	headPC  *Term // path condition at the head of the innermost annotated loop entered (nil: none); used by "+ forget"
 	path    *Term // branch decisions only (conjunction of the conditions of the branches taken); nil = true
@@ -122,6 +123,12 @@ func (s *State) clone() *State {
 	}
 	for k, v := range s.srcAdr {
 		n.srcAdr[k] = v
+	}
+	if len(s.uload) > 0 {
+		n.uload = make(map[string]Value, len(s.uload))
+		for k, v := range s.uload {
+			n.uload[k] = v
+		}
 	}
 	if len(s.cnt) > 0 {
 		n.cnt = make(map[string]int, len(s.cnt))
